@@ -86,8 +86,10 @@ func (ue *ChfUe) init() {
 		Handler:            ue.RatingMux,
 		MaxRetransmits:     3,
 		RetransmitInterval: time.Second,
-		EnableWatchdog:     true,
-		WatchdogInterval:   5 * time.Second,
+		// The connection is dialled for one request and closed when that request is done: there is
+		// nothing for a watchdog to watch, and go-diameter never ends the watchdog goroutine of a
+		// connection that is closed before a message was read from it after the handshake.
+		EnableWatchdog: false,
 		AuthApplicationID: []*diam.AVP{
 			// Advertise support for credit control application
 			diam.NewAVP(avp.AuthApplicationID, avp.Mbit, 0, datatype.Unsigned32(4)), // RFC 4006
@@ -100,8 +102,10 @@ func (ue *ChfUe) init() {
 		Handler:            ue.AbmfMux,
 		MaxRetransmits:     3,
 		RetransmitInterval: time.Second,
-		EnableWatchdog:     true,
-		WatchdogInterval:   5 * time.Second,
+		// The connection is dialled for one request and closed when that request is done: there is
+		// nothing for a watchdog to watch, and go-diameter never ends the watchdog goroutine of a
+		// connection that is closed before a message was read from it after the handshake.
+		EnableWatchdog: false,
 		AuthApplicationID: []*diam.AVP{
 			// Advertise support for credit control application
 			diam.NewAVP(avp.AuthApplicationID, avp.Mbit, 0, datatype.Unsigned32(4)), // RFC 4006
